@@ -509,7 +509,25 @@ func unparsePart(b *strings.Builder, p ast.WordPart) {
 			b.WriteString("${" + p.Name.Value + p.Op + Unparse(p.Word) + "}")
 		}
 	case *ast.CmdSubst:
-		b.WriteString("<cmdsubst>")
+		// only the simple shape "words..." is reconstructed (what here-document
+		// bodies of the generator contain); anything else gets a marker
+		inner := "<cmdsubst>"
+		if len(p.List) == 1 {
+			if c, ok := p.List[0].(*ast.Cmd); ok && len(c.Redirs) == 0 {
+				if sc, ok := c.Expr.(*ast.SimpleCmd); ok && len(sc.Assigns) == 0 {
+					var ws []string
+					for _, a := range sc.Args {
+						ws = append(ws, Unparse(a))
+					}
+					inner = strings.Join(ws, " ")
+				}
+			}
+		}
+		if p.Dollar {
+			b.WriteString("$(" + inner + ")")
+		} else {
+			b.WriteString("`" + inner + "`")
+		}
 	case *ast.ArithExp:
 		b.WriteString("$((")
 		for i, x := range p.Expr {
